@@ -177,44 +177,92 @@ impl<'a> JsonTokenizer<'a> {
     }
 
     pub(super) fn read_string(&mut self) -> io::Result<String> {
-        let mut result = String::new();
-        let mut escape = false;
-
         self.expect('"')?;
         self.skip_whitespaces = false;
+        let result = self.read_string_content();
+        self.skip_whitespaces = true;
 
-        while let Ok(c) = self.read() {
-            if escape {
-                // Handle escape sequences
-                match c {
-                    '\\' => result.push('\\'),
-                    '"' => result.push('"'),
-                    'n' => result.push('\n'),
-                    // 't' => result.push('\t'),
-                    // 'r' => result.push('\r'),
-                    // Add other escape sequences as needed
-                    // _ => result.push(c), // Push the character as is if unknown escape
-                    _ => {}
+        result
+    }
+
+    /// Reads the characters of a string up to and including the closing quote.
+    fn read_string_content(&mut self) -> io::Result<String> {
+        let mut result = String::new();
+
+        loop {
+            match self.read_string_char()? {
+                '"' => return Ok(result), // End of the quoted string
+                '\\' => result.push(self.read_escape()?),
+                c if c < '\u{20}' => {
+                    return Err(io::Error::new(
+                        io::ErrorKind::InvalidData,
+                        format!("Control character {:?} in string", c),
+                    ));
                 }
-                escape = false;
-            } else if c == '\\' {
-                escape = true;
-            } else if c == '"' {
-                self.skip_whitespaces = true;
-                break; // End of the quoted string
-            } else {
-                result.push(c);
+                c => result.push(c),
             }
         }
+    }
 
-        if !escape {
-            Ok(result)
-        } else {
-            Err(io::Error::new(
+    fn read_string_char(&mut self) -> io::Result<char> {
+        self.read().map_err(|e| match e.kind() {
+            io::ErrorKind::UnexpectedEof => {
+                io::Error::new(io::ErrorKind::UnexpectedEof, "Unterminated string")
+            }
+            _ => e,
+        })
+    }
+
+    /// Decodes the escape sequence that follows a backslash (RFC 8259).
+    fn read_escape(&mut self) -> io::Result<char> {
+        match self.read_string_char()? {
+            '"' => Ok('"'),
+            '\\' => Ok('\\'),
+            '/' => Ok('/'),
+            'b' => Ok('\u{8}'),
+            'f' => Ok('\u{c}'),
+            'n' => Ok('\n'),
+            'r' => Ok('\r'),
+            't' => Ok('\t'),
+            'u' => {
+                let mut code = self.read_hex4()?;
+
+                // A high surrogate combines with the low surrogate that must follow it
+                if (0xD800..=0xDBFF).contains(&code)
+                    && self.read_string_char()? == '\\'
+                    && self.read_string_char()? == 'u'
+                    && let low @ 0xDC00..=0xDFFF = self.read_hex4()?
+                {
+                    code = 0x10000 + ((code - 0xD800) << 10) + (low - 0xDC00);
+                }
+
+                // Fails on a surrogate that could not be combined
+                char::from_u32(code).ok_or_else(|| {
+                    io::Error::new(io::ErrorKind::InvalidData, "Lone surrogate in \\u escape")
+                })
+            }
+            c => Err(io::Error::new(
                 io::ErrorKind::InvalidData,
-                "Unterminated string",
-            ))
+                format!("Invalid escape sequence '\\{}'", c),
+            )),
         }
+    }
+
+    fn read_hex4(&mut self) -> io::Result<u32> {
+        let mut code = 0;
+
+        for _ in 0..4 {
+            let c = self.read_string_char()?;
+            let digit = c.to_digit(16).ok_or_else(|| {
+                io::Error::new(
+                    io::ErrorKind::InvalidData,
+                    format!("Invalid hex digit '{}' in \\u escape", c),
+                )
+            })?;
+            code = code * 16 + digit;
+        }
+
+        Ok(code)
     }
 
     fn read_until_separator(&mut self) -> io::Result<String> {
@@ -304,6 +352,63 @@ impl<'a> JsonTokenizer<'a> {
                 let n = self.read_number()?;
                 Ok(JsonValue::Number(n))
             }
+        }
+    }
+}
+
+#[cfg(test)]
+mod tests {
+    use super::*;
+
+    fn read_string(json: &str) -> io::Result<String> {
+        JsonTokenizer::new_from_str(json).read_string()
+    }
+
+    #[test]
+    fn string_escapes() {
+        assert_eq!(
+            read_string(r#""a\"\\\/\b\f\n\r\tz""#).unwrap(),
+            "a\"\\/\u{8}\u{c}\n\r\tz"
+        );
+        assert_eq!(
+            read_string(r#""\u0041\u00e9\u00E9\u20ac\ud83d\ude00\uD83D\uDE00""#).unwrap(),
+            "A\u{e9}\u{e9}\u{20ac}\u{1f600}\u{1f600}"
+        );
+        assert_eq!(
+            read_string("\" \u{e9} \u{1f600} \" ").unwrap(),
+            " \u{e9} \u{1f600} "
+        );
+    }
+
+    #[test]
+    fn string_errors() {
+        let kind = |json: &str| read_string(json).unwrap_err().kind();
+
+        for json in [
+            r#""\a""#,
+            r#""\u12g4""#,
+            r#""\u+123""#,
+            r#""\ud83d""#,
+            r#""\ud83dx""#,
+            r#""\ud83d\n""#,
+            r#""\ud83d\u0041""#,
+            r#""\ude00""#,
+            "\"a\tb\"",
+            "\"a\nb\"",
+            "\"\u{0}\"",
+        ] {
+            assert_eq!(kind(json), io::ErrorKind::InvalidData, "{json}");
+        }
+
+        for json in [
+            r#"""#,
+            r#""abc"#,
+            r#""abc\"#,
+            r#""abc\""#,
+            r#""\u00"#,
+            r#""\ud83d\ude"#,
+        ] {
+            assert_eq!(kind(json), io::ErrorKind::UnexpectedEof, "{json}");
         }
     }
 }
